@@ -106,6 +106,9 @@ def iparse_number_array(arr):
 
 
 def parse_criteria(criteria):
+    if not isinstance(criteria, string_types):
+        # a bare value that is not text (a number, a logical): equality with it (a logical equals no number)
+        return lambda a: a == criteria and isinstance(a, bool) == isinstance(criteria, bool)
     match = REGEX_CRITERIA.match(criteria)
     op = match.group('op')
     val = match.group('val')
